@@ -162,6 +162,10 @@ def run_history(res, cfg, scratch, rng, hidx, kill_budget):
                 continue
             res.seen((tuple(p.canon() for p in old), op["op"], repr(op.get("q")), repr(op.get("args")), tuple(e.sig() for e in mon.events)))
             res.count("io_calls_observed", len(mon.events))
+            if len(res.samples) < 3 and op["op"] in ("update", "remove", "insert_multiple") and len(old) >= 2 and len(mon.events) > 8:
+                res.sample({"config": cfg_name(cfg), "op": op if "q" not in op else dict(op, q=qast.show(op["q"])),
+                            "rows_before": len(old), "rows_after": len(new),
+                            "crash_points": [lbl for lbl, _ in mon.snaps][:40]})
             if not check_snapshots(res, s, op, old, new, mon, scratch):
                 return
             if do_kill:
@@ -187,8 +191,6 @@ def run(res, tier, seed, shard, nshards):
             for h in range(N_HIST[tier]):
                 rng = rng_for("C12", tier, seed, shard, ci, h)
                 run_history(res, cfg, scratch, rng, h, kill_budget)
-        if shard == 0:
-            res.sample({"op": "remove(q) on 5 rows", "boundaries": ["temp.tmp_create", "primary.seek", "primary.iter", "temp.write", "primary.close", "primary.copy_open", "primary.copy_mid", "primary.copy_done", "primary.open"]})
     if not sysmon.available():
         res.notes.append("strace sub-tier skipped: " + sysmon.why_unavailable())
     res.require("proxy.crash_points")
